@@ -315,6 +315,10 @@ def differs(a, b, rel='eq'):
     return a != b
 
 
+_UID = [0]
+_UID_LOCK = threading.Lock()
+
+
 def decide_case(d, case, workdir, timeout=60, rnd=None, split_timeout=None, max_group=64, group_timeout=None):
     """returns list of results per EQ: dict(label, status in {unsat, trivial, cex, inconclusive}, assign (for cex), queries, solver_s)
     plus case-level info"""
@@ -367,12 +371,15 @@ def decide_case(d, case, workdir, timeout=60, rnd=None, split_timeout=None, max_
     # group queries
     groups = [pending[i:i + max_group] for i in range(0, len(pending), max_group)]
     qn = [0]
+    with _UID_LOCK:
+        _UID[0] += 1; uid = '%d_%d' % (os.getpid(), _UID[0])
 
     def query(eqs, to):
         qn[0] += 1
         text, cn, nd = smt_text(d, case, eqs)
         info['divisors_assumed_nonzero'] = max(info['divisors_assumed_nonzero'], nd)
-        p = os.path.join(workdir, re.sub(r'[^\w.-]', '_', case['name'])[:60] + '_' + hashlib.sha1(case['name'].encode()).hexdigest()[:10] + '_q%d.smt2' % qn[0])
+        # unique per decide_case call: split sub-cases of one case run concurrently and share the case name
+        p = os.path.join(workdir, re.sub(r'[^\w.-]', '_', case['name'])[:60] + '_' + hashlib.sha1(case['name'].encode()).hexdigest()[:10] + '_%s_q%d.smt2' % (uid, qn[0]))
         r, so, w = z3_query(text, p, to)
         info['queries'] += 1; info['solver_s'] += w
         if r == 'unsat':
@@ -461,7 +468,7 @@ def decide_case(d, case, workdir, timeout=60, rnd=None, split_timeout=None, max_
             if rp[0] == 'cex':
                 res.append({'label': e['label'], 'status': 'cex', 'assign': {k2: float(v) for k2, v in rp[1].items()}, 'how': 'exact evaluation at rational point after solver %s' % r, 'lhs': rp[2], 'rhs': rp[3], 'queries': 1, 'solver_s': w})
             else:
-                res.append({'label': e['label'], 'status': 'inconclusive', 'why': 'z3 %s in %ds; %d rational points agree' % (r, timeout, rp[1]), 'queries': 1, 'solver_s': w})
+                res.append({'label': e['label'], 'status': 'inconclusive', 'why': 'z3 %s in %ds [%s] after %.1fs; %d rational points agree' % (r, timeout, so.strip()[:100].replace('\n', ' | '), w, rp[1]), 'queries': 1, 'solver_s': w})
             continue
         for e in g:
             settle_single(e, split_timeout or timeout)
